@@ -677,7 +677,10 @@ func (c *Ctx) heapWF(name, h, wm string) string {
 		return ""
 	}
 	c.quant = true
-	return fmt.Sprintf("(forall %s (! %s :pattern (%s)))", vars, body, pat)
+	// Only cells of objects that exist (reference below the watermark) are constrained: an object a callee
+	// allocates and returns occupies cells above the caller's watermark at the time of the call, and what the
+	// callee stored there (including references to other objects it allocated) is told by its contract alone.
+	return fmt.Sprintf("(forall %s (! (=> (< r! %s) %s) :pattern (%s)))", vars, wm, body, pat)
 }
 
 func (c *Ctx) ghostVar(name, sortS string) string {
